@@ -12,6 +12,8 @@ REPO = os.environ.get("VERIF_REPO", "/repo")
 WORK = os.environ.get("VERIF_WORK", os.path.join(VERIF, ".work"))
 CACHE = os.path.join(WORK, "cache")
 GUARD = "RJHOGAN_ADEPT_2_VERIF"
+# VERIF_COVERAGE=1 (tools/coverage.py only, always with a private VERIF_WORK): g++ objects are instrumented for gcov
+COVERAGE = os.environ.get("VERIF_COVERAGE", "") == "1"
 
 BASE_FLAGS = ["-std=c++11", "-O1", "-g0", "-fopenmp", "-ffp-contract=off",
               "-I" + os.path.join(REPO, "include"), "-I" + os.path.join(REPO, "adept"),
@@ -56,11 +58,14 @@ def _compile(cxx, src, flags, log):
     if os.path.exists(obj):
         return obj, None
     tmp = obj + ".%d.tmp" % os.getpid()
+    if COVERAGE and cxx == "g++":
+        tmp = obj          # the .gcno/.gcda names derive from the output name
     cmd = [cxx] + flags + ["-c", src, "-o", tmp]
     p = subprocess.run(cmd, stdout=subprocess.PIPE, stderr=subprocess.STDOUT, text=True)
     if p.returncode != 0:
         return None, "COMPILE FAILED: %s\n%s" % (" ".join(cmd), p.stdout[-6000:])
-    os.replace(tmp, obj)
+    if tmp != obj:
+        os.replace(tmp, obj)
     return obj, None
 
 
@@ -76,6 +81,8 @@ def build(name, drivers, defines=(), san="asan", extra=(), link=(), cxx="g++", w
         flags = [f for f in flags if f != "-fopenmp"]
     if opt:
         flags = [f for f in flags if f != "-O1"] + [opt]
+    if COVERAGE and cxx == "g++":
+        flags = flags + ["--coverage", "-fno-inline", "-fprofile-update=atomic"]
     if isinstance(drivers, str):
         drivers = [drivers]
     srcs = (lib_sources() if with_lib else []) + list(drivers)
@@ -89,7 +96,7 @@ def build(name, drivers, defines=(), san="asan", extra=(), link=(), cxx="g++", w
     key = _sha(("\0".join(objs) + "\0" + " ".join(flags) + " ".join(link)).encode())
     exe = os.path.join(CACHE, "%s-%s" % (name, key[:16]))
     if not os.path.exists(exe):
-        cmd = [cxx] + [f for f in flags if f.startswith("-fsanitize") or f == "-fopenmp"] + objs + ["-o", exe + ".tmp"] + list(link)
+        cmd = [cxx] + [f for f in flags if f.startswith("-fsanitize") or f in ("-fopenmp", "--coverage")] + objs + ["-o", exe + ".tmp"] + list(link)
         p = subprocess.run(cmd, stdout=subprocess.PIPE, stderr=subprocess.STDOUT, text=True)
         if p.returncode != 0:
             raise BuildError("LINK FAILED: %s\n%s" % (" ".join(cmd[:6]) + " ...", p.stdout[-6000:]))
